@@ -30,6 +30,7 @@ func genC20(r *Rng, k int) *RunSpec {
 	a.Zone = Pick(r, []int{0, 3600, -3600 * 11, 19800, 3600 * 14})
 	a.ClockSkewS = int64(r.Intn(200000) - 100000)
 	a.GetMissing = Pick(r, []string{"nil", "nil", "error"})
+	a.ClockFine = r.Intn(3) > 0
 	// a page with 0..30 items, duplicates at arbitrary positions, IRIs or embedded values
 	page := func(id string) J {
 		n := r.Intn(31)
